@@ -1151,6 +1151,12 @@ class Inliner:
                     refs.add((owner, t["fn"]["def"]))
                     if t["fn"].get("resolved"):
                         refs.add((owner, t["fn"]["resolved"]["def"]))
+                    elif t["fn"].get("trait"):
+                        # a trait-method call that is not statically resolved (generic over Self, as in a provided method
+                        # spliced into its caller): any impl of that method may be the target, none of them may be dropped
+                        for dn, f2 in self.fns.items():
+                            if f2.get("impl_trait") == t["fn"]["trait"] and f2.get("name") == t["fn"].get("name"):
+                                refs.add((owner, dn))
                 if t["k"] == "call":
                     for o in t["args"]:          # a function passed as a value: `.map(helper)`
                         if isinstance(o, dict) and "const" in o and "fn" in o["const"]:
